@@ -144,9 +144,8 @@ let handle toks =
   (* ---- MultiTag ---- *)
   | "moffcnt" :: aid :: m :: rest ->
     let a = arr aid and m = mode_of `Offcnt m and idxs = idx_list rest in
-    let spec = answers (OLst.map (fun i -> match spec_mtag_view (incl_of m) !the_mtag a i with Refuse -> Unconstrained | x -> x) idxs) in
     show_res (show_list show_oc) (getOffsetAndCount_mtag b !the_mtag a idxs m)
-    ^ " ## " ^ show_sp (show_list show_oc3) (of_answer spec)
+    ^ " ## " ^ show_sp (show_list show_oc3) (of_answer (spec_mtag_offcnts (incl_of m) !the_mtag a idxs))
   | ["moffcnt1"; aid; m; i] ->
     let a = arr aid and m = mode_of `Offcnt m and i = z_of_string i in
     show_res show_oc (getOffsetAndCount_mtag1 b !the_mtag a i m)
